@@ -36,7 +36,7 @@ VARIABLES slot,   \* slot[i]: None | [kind: "L"|"C", arr, len, fresh, used, g: g
           prog          \* the program so far (history; exported)
 vars == <<slot, mem, nf, nh, nc, prog>>
 
-Ghost0 == [fields |-> <<>>, hooks |-> <<>>, goctx |-> 0, level |-> 0]
+Ghost0 == [fields |-> <<>>, hooks |-> <<>>, goctx |-> 0, level |-> 0, stack |-> FALSE]
 Root == [kind |-> "L", arr |-> 0, len |-> 0, fresh |-> FALSE, used |-> FALSE, g |-> Ghost0]
 Init == /\ slot = [i \in 1..S |-> IF i = 1 THEN Root ELSE None]
         /\ mem = <<>> /\ nf = 0 /\ nh = 0 /\ nc = 0 /\ prog = <<>>
@@ -74,6 +74,11 @@ Field(i, j) == /\ Can(1) /\ IsC(i) /\ Free(i, j)
 GoCtx(i, j) == /\ Can(1) /\ IsC(i) /\ Free(i, j)
                /\ slot' = Use(i, j, [slot[i] EXCEPT !.used = FALSE, !.g.goctx = nc + 1])
                /\ nc' = nc + 1 /\ UNCHANGED <<mem, nf, nh>> /\ Step("GoCtx", i, j, nc + 1)
+\* c2 := c.Stack(): the stack flag is part of the logger value: descendants inherit it, siblings and parents do not get it,
+\* and temporaries that are not created by a logger (zerolog.Dict(), Arr().Object ...) never have it
+StackOn(i, j) == /\ Can(1) /\ IsC(i) /\ Free(i, j)
+                 /\ slot' = Use(i, j, [slot[i] EXCEPT !.used = FALSE, !.g.stack = TRUE])
+                 /\ UNCHANGED <<mem, nf, nh, nc>> /\ Step("Stack", i, j, 0)
 \* c2 := c.Reset(): a fresh, empty context array; hooks, level, Go context carried over
 CtxReset(i, j) == /\ Can(1) /\ IsC(i) /\ Free(i, j)
                   /\ mem' = Append(mem, Pad(<<>>, Cap))
@@ -114,10 +119,10 @@ Drop(i) == /\ Can(1) /\ i # 1 /\ slot[i] # None /\ slot' = [slot EXCEPT ![i] = N
 \* an event through logger i; the expectation (ghost) is part of the exported step
 Emit(i) == /\ Can(1) /\ IsL(i) /\ UNCHANGED <<slot, mem, nf, nh, nc>>
            /\ prog' = Append(prog, [op |-> "Emit", i |-> i, j |-> i, a |-> 0, fields |-> slot[i].g.fields, hooks |-> slot[i].g.hooks,
-                                    goctx |-> slot[i].g.goctx, level |-> slot[i].g.level])
+                                    goctx |-> slot[i].g.goctx, level |-> slot[i].g.level, stack |-> slot[i].g.stack])
 
 Next == \E i, j \in 1..S :
-          \/ With(i, j) \/ Field(i, j) \/ GoCtx(i, j) \/ CtxReset(i, j) \/ ToLogger(i, j) \/ Hook(i, j) \/ Output(i, j)
+          \/ With(i, j) \/ Field(i, j) \/ GoCtx(i, j) \/ CtxReset(i, j) \/ StackOn(i, j) \/ ToLogger(i, j) \/ Hook(i, j) \/ Output(i, j)
           \/ (\E x \in {1, 2} : Level(i, j, x)) \/ Update(i) \/ UpdateReset(i) \/ Drop(i) \/ Emit(i)
 Spec == Init /\ [][Next]_vars
 View == <<slot, mem, nf, nh, nc, Len(prog)>>
